@@ -1273,9 +1273,10 @@ CHAIN_NOTE_C04 = (
     "stated as an exemption). It supersedes C04_cascade_partial. The same composition is run against REAL chains of "
     "depth 1..3 with every component polled explicitly and every wire write, yield, handler event, result and gauge "
     "compared inside Coq (Checks/Chaincheck.v). Also proved over the composition: no dispatch or stream poll of any "
-    "node runs out of fuel (C14_chain_poll_fuel) and the per-hop wire clause (C18_chain_wire). Open, checked on every "
-    "real trace only: SettleAll reaches a quiet round within its rounds budget (ChainSpec.stmt_chain_rounds; the "
-    "unconditional form is refuted beyond the DelayQueue range, C14_chain_fuel_pinned_refuted).")
+    "node runs out of fuel (C14_chain_poll_fuel), the per-hop wire clause (C18_chain_wire), and SettleAll reaches a "
+    "quiet round within its rounds budget whenever the timer-order oracle never disagrees (C04_chain_rounds, by a "
+    "potential that no component poll increases: C04_chain_round_potential, C04_chain_settle_quiet; the unconditional "
+    "form is refuted beyond the DelayQueue range, C14_chain_fuel_pinned_refuted).")
 for _pid, _part, _note in (
         ("C04", C04_COMPOSE_PART, CHAIN_NOTE_C04),
         ("C18", C18_COMPOSE_PART,
